@@ -55,7 +55,7 @@ def candidates(repo, files):
         end = next((i for i, l in enumerate(lines) if l.strip().startswith("#[cfg(test)]") and i > 20), len(lines))
         for i, l in enumerate(lines[:end]):
             st = l.strip()
-            if not st or st.startswith("//") or st.startswith("#[") or st.startswith("use ") or "info!(" in st or "debug!(" in st or "trace!(" in st or "warn!(" in st or ".help(" in st or ".about(" in st:
+            if not st or st.startswith("//") or st.startswith("#[") or st.startswith("use ") or ".author(" in st or ".version(" in st or "info!(" in st or "debug!(" in st or "trace!(" in st or "warn!(" in st or ".help(" in st or ".about(" in st:
                 continue
             code = l.split("//")[0]
             # skip generics / arrows / closures where '<' '>' are not comparisons
@@ -98,8 +98,11 @@ def main():
                 continue
             lines[i] = new
             open(p, "w").write("\n".join(lines))
-            t = sh(["cargo", "test", "--offline", "--manifest-path", os.path.join(repo, "Cargo.toml"), "--target-dir", os.path.join(scratch, "cache", "repo-target")], env=env)
-            out = t.stdout.decode("utf-8", "replace")
+            try:
+                t = sh(["timeout", "-k", "5", "300", "cargo", "test", "--offline", "--manifest-path", os.path.join(repo, "Cargo.toml"), "--target-dir", os.path.join(scratch, "cache", "repo-target")], env=env)
+                out = t.stdout.decode("utf-8", "replace")
+            except Exception as e:  # noqa
+                out = "cargo test failed: %s" % e
             rec = {"file": f, "line": i + 1, "old": old.strip(), "new": new.strip(), "op": desc}
             if "test result: ok. 41 passed" not in out:
                 rec["status"] = "invalid (does not build or fails the 41 tests)"
